@@ -7,6 +7,7 @@ import (
 	"errors"
 	"fmt"
 	"io"
+	"os"
 	"strings"
 
 	"verifharness/internal/core"
@@ -25,6 +26,12 @@ type c07Case struct {
 	Loader   string `json:"loader"`
 	ReadBuf  int    `json:"readout_buffer"`
 	RngSeed  uint64 `json:"schedule_seed"`
+	// ErrKind: which error value the source fails with ("" = a private injected error)
+	ErrKind string `json:"source_error,omitempty"`
+	// Seeker: the source is an io.ReadSeeker positioned Seeker bytes into a longer stream
+	// ("bytes.Reader" or "os.File"); only the bytes from that position on are the input
+	Seeker     string `json:"seekable_source,omitempty"`
+	SeekPrefix int    `json:"bytes_before_the_input,omitempty"`
 	// Deferred: the read-out happened after `Deferred` further loads had been made
 	Deferred int `json:"deferred_behind_loads,omitempty"`
 }
@@ -32,7 +39,7 @@ type c07Case struct {
 func c07Source(data []byte, cs c07Case) *src.Source {
 	s := src.New(data[:cs.Cut])
 	if strings.Contains(cs.Terminal, "error") {
-		s = src.New(data).FaultAt(int64(cs.Cut))
+		s = src.New(data).FaultWith(int64(cs.Cut), c07Err(cs.ErrKind))
 	}
 	if strings.HasPrefix(cs.Terminal, "data+") {
 		s.DataWithEnd()
@@ -50,6 +57,23 @@ func c07Source(data []byte, cs c07Case) *src.Source {
 	return s
 }
 
+var errWrappedEOF = fmt.Errorf("reading body: %w", io.EOF)
+var errWrappedUnexpected = fmt.Errorf("reading body: %w", io.ErrUnexpectedEOF)
+
+func c07Err(kind string) error {
+	switch kind {
+	case "io.ErrUnexpectedEOF":
+		return io.ErrUnexpectedEOF
+	case "wrapped io.ErrUnexpectedEOF":
+		return errWrappedUnexpected
+	case "wrapped io.EOF":
+		return errWrappedEOF
+	case "io.ErrClosedPipe":
+		return io.ErrClosedPipe
+	}
+	return src.ErrInjected
+}
+
 type c07Loaded struct {
 	cs   c07Case
 	res  loadResult
@@ -58,8 +82,56 @@ type c07Loaded struct {
 }
 
 func c07Load(data []byte, cs c07Case) c07Loaded {
+	if cs.Seeker != "" {
+		// a seekable reader handed over at a non-zero position: the input is what follows
+		prefix := bytes.Repeat([]byte("PREFIX--"), (cs.SeekPrefix+7)/8)[:cs.SeekPrefix]
+		whole := append(append([]byte{}, prefix...), data[:cs.Cut]...)
+		var rd io.Reader
+		if cs.Seeker == "os.File" {
+			f, err := os.CreateTemp(core.WorkDir("C07"), "seek")
+			if err == nil {
+				_, _ = f.Write(whole)
+				_, _ = f.Seek(int64(cs.SeekPrefix), io.SeekStart)
+				name := f.Name()
+				rd = f
+				defer func() { _ = os.Remove(name) }()
+				l := c07Loaded{cs, loadWith(cs.Loader, rd), src.New(nil), data}
+				// drain now: the file is removed when this function returns
+				if l.res.Stream != nil {
+					func() {
+						defer func() {
+							if p := recover(); p != nil {
+								l.res.Panic = fmt.Sprintf("reading the returned stream panicked: %v", p)
+							}
+						}()
+						got, rerr, _ := src.ReadAllChunks(l.res.Stream, cs.ReadBuf, int64(len(whole))+1<<16)
+						l.res.Stream = &replayed{bytes.NewReader(got), rerr}
+					}()
+				}
+				_ = f.Close()
+				return l
+			}
+		}
+		br := bytes.NewReader(whole)
+		_, _ = br.Seek(int64(cs.SeekPrefix), io.SeekStart)
+		return c07Loaded{cs, loadWith(cs.Loader, br), src.New(nil), data}
+	}
 	s := c07Source(data, cs)
 	return c07Loaded{cs, loadWith(cs.Loader, s), s, data}
+}
+
+// replayed carries an already drained stream (bytes, then its terminal error).
+type replayed struct {
+	r   *bytes.Reader
+	err error
+}
+
+func (p *replayed) Read(b []byte) (int, error) {
+	n, err := p.r.Read(b)
+	if err == io.EOF && p.err != nil {
+		return n, p.err
+	}
+	return n, err
 }
 
 // c07Readout drains the returned stream and compares with what the source delivered.
@@ -95,7 +167,7 @@ func c07Readout(l c07Loaded) (kind, msg string, mdOK bool) {
 			cs.Loader, cs.Seed, cs.Cut, cs.Terminal, cs.Schedule, len(got), firstDiff(got, want), len(want), mdOK, l.res.Err), mdOK
 	}
 	if strings.Contains(cs.Terminal, "error") {
-		if !errors.Is(rerr, src.ErrInjected) {
+		if want := c07Err(cs.ErrKind); !errors.Is(rerr, want) || (cs.ErrKind == "wrapped io.EOF" && rerr == nil) {
 			return "error-lost", fmt.Sprintf("%s.Load(%s, source fails after %d bytes): stream ended with %v instead of surfacing the source's error", cs.Loader, cs.Seed, cs.Cut, rerr), mdOK
 		}
 	} else if rerr != nil {
@@ -133,7 +205,7 @@ func c07CutClass(t imggen.Truth, cut, total int) string {
 func runC07(r *core.Run) {
 	r.Rule = "for each seed file (generated PNG/JPEG/WebP with and without profiles, the repository's small files, garbage, empty) every prefix length x 4 loaders x terminal {EOF, sticky I/O error, final data together with EOF, final data together with the error} x delivery schedule {all-at-once, 1 byte, seeded random; thorough adds 2,3,7,4095,4096,4097 and mutated seeds}; the stream is drained with buffers of 1, 7 or 32768 bytes, immediately or after up to 3 further loads (deferred read-out, so that recycled buffers show); non-trivial = distinct (loader, seed, cut class, terminal, schedule, metadata-success) other than cuts beyond the needed data with successful metadata"
 	r.Assumptions = []string{"the source is sticky: once it has failed it keeps returning the same error", "faults enter only through the io.Reader handed to Load"}
-	seeds := smallSeeds(r.Seed)
+	seeds := append(smallSeeds(r.Seed), hostileSpecials()...)
 	if r.Thorough() {
 		rng := core.NewRNG(r.Seed, "C07", "mut")
 		base := len(seeds)
@@ -206,6 +278,34 @@ func runC07(r *core.Run) {
 	for _, j := range jobs {
 		truths[j.seed.Name] = j.seed.Truth
 	}
+	// further source kinds, on a sample of the cuts: other error values, seekable sources at an offset
+	type extraUnit struct {
+		j, cut          int
+		load, kind, arg string
+	}
+	var extras []extraUnit
+	{
+		rg := core.NewRNG(r.Seed, "C07", "extras")
+		for ji, j := range jobs {
+			if len(j.seed.Bytes) > 8192 {
+				continue
+			}
+			for k := 0; k < 24; k++ {
+				cut := j.cuts[rg.Intn(len(j.cuts))]
+				if k < 3 {
+					cut = len(j.seed.Bytes)
+				}
+				for _, l := range loaderNames {
+					extras = append(extras,
+						extraUnit{ji, cut, l, "err", core.Pick(rg, []string{"io.ErrUnexpectedEOF", "wrapped io.ErrUnexpectedEOF", "wrapped io.EOF", "io.ErrClosedPipe"})},
+						extraUnit{ji, cut, l, "seek", "bytes.Reader"})
+					if k%8 == 0 {
+						extras = append(extras, extraUnit{ji, cut, l, "seek", "os.File"})
+					}
+				}
+			}
+		}
+	}
 	outcomes := map[string]int64{}
 	var omu = make(chan map[string]int64, 64)
 	nshards := 64
@@ -253,6 +353,23 @@ func runC07(r *core.Run) {
 						flush()
 					}
 				}
+			}
+		}
+		for ei := sh; ei < len(extras); ei += nshards {
+			e := extras[ei]
+			j := jobs[e.j]
+			cs := c07Case{Seed: j.seed.Name, Cut: e.cut, Terminal: "eof", Schedule: core.Pick(rg, []string{"all", "1", "random"}), Loader: e.load, ReadBuf: []int{1, 7, 32768}[rg.Intn(3)], RngSeed: rg.U64()}
+			if e.kind == "err" {
+				cs.Terminal, cs.ErrKind = core.Pick(rg, []string{"error", "data+error"}), e.arg
+				if e.cut == 0 {
+					cs.Terminal = "error"
+				}
+			} else {
+				cs.Seeker, cs.SeekPrefix, cs.Schedule = e.arg, 1+rg.Intn(40), "all"
+			}
+			pending = append(pending, c07Load(j.seed.Bytes, cs))
+			if len(pending) >= 1+rg.Intn(4) {
+				flush()
 			}
 		}
 		if len(pending) > 0 {
